@@ -147,6 +147,10 @@ def gen_scenario(r):
         # the host HUGR has a freed index (deleted node with another output count) to be recycled
         sc["recycle"] = r.choice([None, 0, 1, 2, 5, 7])
         sc["recycle_on"] = True
+    if kind in ("nested", "cfg", "cond", "loop") and r.random() < 0.35:
+        # while the container is still open, one of its output ports (possibly beyond the outputs it will end up
+        # with) is linked to a scratch node, and the link is deleted again before the outputs are set
+        sc["probe"] = r.randint(0, 6)
     if kind in ("cfg", "insert_cfg"):
         sc["shape"] = r.randrange(3)
         sc["exit_via_branch"] = r.random() < 0.5
@@ -286,9 +290,24 @@ def run_scenario(ctx, sc):
     ins = outer.inputs()
     recycle(outer.hugr)
     bwires, sumw = ins[:-1], ins[-1]
+
+    def probe(b_):
+        if sc.get("probe") is None:
+            return
+        ctx.feat("feature:output-port-linked-and-unlinked-before-outputs-set")
+        hh = outer.hugr
+        scratch = hh.add_node(ops.Custom("scratch", tys.FunctionType([B], []), extension="verif.c16"),
+                              outer.parent_node)
+        src = b_.to_node().out(sc["probe"])
+        hh.add_link(src, scratch.inp(0))
+        if sc["probe"] % 2:
+            hh.delete_link(src, scratch.inp(0))
+        hh.delete_node(scratch)
+
     if kind in ("nested", "insert_nested"):
         if kind == "nested":
             b = outer.add_nested(*bwires[:k])
+            probe(b)
         else:
             b = Dfg(*([B] * k))
         b.set_outputs(*b.inputs(), *b.inputs()[:m if k else 0])
@@ -299,6 +318,8 @@ def run_scenario(ctx, sc):
         # m outputs from k inputs (m != k in general), the exit reached through either entry point, directly from the
         # entry block or through a second block, by port 0 or port 1 of a two-way branch
         b = outer.add_cfg(*bwires[:k]) if kind == "cfg" else Cfg(*([B] * k))
+        if kind == "cfg":
+            probe(b)
         shape = sc.get("shape", 0)
         via_branch = bool(sc.get("exit_via_branch"))
         ctx.feat("feature:cfg-exit-via-branch" if via_branch else "feature:cfg-exit-via-branch_exit")
@@ -333,6 +354,8 @@ def run_scenario(ctx, sc):
     elif kind in ("cond", "insert_cond"):
         st = tys.Either([B], [B] * k)
         b = outer.add_conditional(sumw, *bwires[:m]) if kind == "cond" else Conditional(st, [B] * m)
+        if kind == "cond":
+            probe(b)
         with b.add_case(0) as c0:
             x = c0.inputs()[0]
             c0.set_outputs(*([x] * k))
@@ -355,6 +378,8 @@ def run_scenario(ctx, sc):
     elif kind in ("loop", "insert_loop"):
         b = (outer.add_tail_loop([bwires[0]], bwires[1:k]) if kind == "loop"
              else TailLoop([B], [B] * max(k - 1, 0)))
+        if kind == "loop":
+            probe(b)
         j, *rest = b.inputs()
         ctl = b.add_op(ops.Tag(1, tys.Either([B], [B] * m)), *([j] * m))
         b.set_loop_outputs(ctl, *rest)
